@@ -12,19 +12,24 @@ SOLVERS = ("minisat", "cadical")   # measured: minisat answers the step queries 
 def _hexloops(left):
     return ["hex_get_byte.0:%d" % (left + 1), "hex_get_byte.1:%d" % (left + 1), "hex_get_byte.2:%d" % (left // 2 + 1)]
 
+def _cost(left, timeout):
+    """the driver starts harnesses in order of decreasing timeout: give the expensive partitions (many characters left to read) a slightly larger one so that they start first;
+    they are also the ones where a second back end only costs CPU (cadical never won a step query with >= 4 characters left)"""
+    return dict(timeout=timeout + 20 * left, solvers=SOLVERS if left < 4 else SOLVERS[:1])
+
 def _step(L, tiers, timeout):
     """hex_get_byte step contract on arbitrary text: one query per (string length, first call | continuation at offset | ended sequence)."""
     hs = []
     for n in range(L + 1):
         d = D + ["-DLMAX=%d" % max(n, 1), "-DNFIX=%d" % n]
-        kw = dict(unwind=12, unwindset=["strchr.0:%d" % (n + 2)], timeout=timeout, tiers=tiers, solvers=SOLVERS)
-        hs.append(H("step_len%d_first" % n, F, "h_step", FN, defs=d + ["-DFIRSTFIX=1"], static_unwind=_hexloops(n),
+        kw = dict(unwind=12, unwindset=["strchr.0:%d" % (n + 2)], tiers=tiers)
+        hs.append(H("step_len%d_first" % n, F, "h_step", FN, defs=d + ["-DFIRSTFIX=1"], static_unwind=_hexloops(n), **_cost(n, timeout),
                     bounded="first call (s != NULL) on every string of exactly %d non-NUL characters (heap object of %d bytes), any stale cursor" % (n, n + 1), **kw))
         for off in range(n + 1):
             hs.append(H("step_len%d_cont_off%d" % (n, off), F, "h_step", FN, defs=d + ["-DFIRSTFIX=0", "-DNULLFIX=0", "-DOFFFIX=%d" % off],
-                        static_unwind=_hexloops(n - off),
+                        static_unwind=_hexloops(n - off), **_cost(n - off, timeout),
                         bounded="continuation call (s == NULL) with the cursor at offset %d of every string of exactly %d non-NUL characters" % (off, n), **kw))
-        hs.append(H("step_len%d_ended" % n, F, "h_step", FN, defs=d + ["-DFIRSTFIX=0", "-DNULLFIX=1"], static_unwind=_hexloops(0),
+        hs.append(H("step_len%d_ended" % n, F, "h_step", FN, defs=d + ["-DFIRSTFIX=0", "-DNULLFIX=1"], static_unwind=_hexloops(0), **_cost(0, timeout),
                     bounded="continuation call with a NULL cursor (the sequence has ended); string of %d characters" % n, **kw))
     return hs
 
